@@ -188,6 +188,8 @@ def bounds(tier):
         "refine": {"parameter_set x templates": plan["refine"],
                    "insertions": "repeat / midpoint in every cyclic gap, wrap-around gap on both sides"
                                  + ("" if q else "; plus all pairs of interior insertions for templates of length <= 8 (steel-normal)")},
+        "kept N_max_bearable functions (template, repetitions, load factor) x P_A asked ascending, descending, ascending":
+            {"cases": NMAX_CASES_Q if q else NMAX_CASES_T, "P_A": NMAX_PA, "parameter_set": "steel-nostat"},
         "mono": {"star through the base point (parameter_set x templates)": plan["mono-star"],
                  "all lines of the grid scale x R_z x P_A": plan["mono-grid"],
                  "fine scale ladder at the base point": plan["mono-ladder"],
@@ -537,6 +539,61 @@ def _lines(tier):
 
 
 # ---------------------------------------------------------------------------------------------------------------
+# the lifetime-for-failure-probability functions handed out by an assessment
+# ---------------------------------------------------------------------------------------------------------------
+NMAX_PA = (1e-6, 1e-4, 1e-2, 0.1, 0.5, 0.9)
+# (template, repetitions, load factor): long enough that for small failure probabilities the damage sum reaches one within
+# the two HCM passes while for large ones it does not (N_1ppm ~ 50 cycles, N_50 ~ 500 cycles, 160 samples)
+NMAX_CASES_Q = [("guideline", 20, 3.0)]
+NMAX_CASES_T = [("guideline", 20, 3.0), ("guideline", 20, 2.0), ("nested", 16, 3.0), ("guideline", 42, 3.0)]
+
+
+def check_nmax(case):
+    """One assessment; its P_RAM_/P_RAJ_N_max_bearable functions are kept and asked in ascending, descending and again
+    ascending order of the failure probability.  The answer for a probability must not depend on what was asked before,
+    a smaller probability never gives a longer life, and the reported N_10/50/90 are the function's values."""
+    import pandas as pd
+    import pylife.strength.fkm_nonlinear.assessment_nonlinear_standard as A
+    loads = [float(np.float64(x) * np.float64(case["scale"])) for x in TEMPLATES[case["template"]]] * int(case["repeat"])
+    viol, calls = [], 1
+    try:
+        with contextlib.redirect_stdout(io.StringIO()), warnings.catch_warnings():
+            warnings.simplefilter("ignore")
+            res = A.perform_fkm_nonlinear_assessment(pd.Series(dict(PARAMS[case["params"]])), pd.Series(loads, dtype=float),
+                                                     calculate_P_RAM=True, calculate_P_RAJ=True)
+            out = {}
+            for prm in ("P_RAM", "P_RAJ"):
+                f = res.get(prm + "_N_max_bearable")
+                if f is None:
+                    continue
+                seqs = []
+                for order in (NMAX_PA, tuple(reversed(NMAX_PA)), NMAX_PA):
+                    seqs.append({p: float(np.asarray(f(p), dtype=float).reshape(-1)[0]) for p in order})
+                    calls += len(order)
+                out[prm] = seqs
+                rep = {q: float(np.asarray(res["%s_lifetime_N_%s" % (prm, q)], dtype=float).reshape(-1)[0]) for q in ("10", "50", "90")}
+                asc, desc, asc2 = seqs
+                if any(not _same(asc[p], desc[p]) or not _same(asc[p], asc2[p]) for p in NMAX_PA):
+                    viol.append(("C10/N_max_bearable/%s/answer-depends-on-earlier-questions" % prm,
+                                 {"P_A": NMAX_PA, "ascending": [asc[p] for p in NMAX_PA], "descending": [desc[p] for p in NMAX_PA],
+                                  "ascending_again": [asc2[p] for p in NMAX_PA]}))
+                for seq, name in ((asc, "ascending"), (desc, "descending")):
+                    vals = [seq[p] for p in NMAX_PA]
+                    if any(vals[i] > vals[i + 1] * (1 + RTOL) for i in range(len(vals) - 1)):
+                        viol.append(("C10/N_max_bearable/%s/smaller-failure-probability-gives-longer-life" % prm,
+                                     {"P_A": NMAX_PA, "asked_in_order": name, "lifetimes": vals}))
+                        break
+                if any(not _same(rep[q], asc[pq]) for q, pq in (("10", 0.1), ("50", 0.5), ("90", 0.9))):
+                    viol.append(("C10/N_max_bearable/%s/reported-quantile-differs-from-the-function" % prm,
+                                 {"reported N_10/50/90": rep, "function at 0.1/0.5/0.9": [asc[0.1], asc[0.5], asc[0.9]]}))
+    except Exception as e:                       # noqa: BLE001
+        return [("C10/N_max_bearable/raises-" + type(e).__name__, {"error": str(e)[:200]})], calls, False, ("raises",), 0
+    spread = any(len({round(v, 6) for v in s_[0].values()}) > 1 for s_ in out.values())
+    outcome = tuple((k, tuple(_r(v[0][p]) for p in NMAX_PA)) for k, v in sorted(out.items()))
+    return _first_per_key(viol), calls, spread, outcome, 0
+
+
+# ---------------------------------------------------------------------------------------------------------------
 # shards
 # ---------------------------------------------------------------------------------------------------------------
 def shards(tier):
@@ -596,6 +653,9 @@ def shards(tier):
     # monotone lines
     for line in _lines(tier):
         out.append([line])
+    # kept lifetime functions
+    for t, rep, sc in (NMAX_CASES_Q if q else NMAX_CASES_T):
+        out.insert(0, [{"kind": "nmax", "template": t, "repeat": rep, "scale": sc, "params": "steel-nostat"}])
     return out
 
 
@@ -606,6 +666,8 @@ def _run_case(case, cache):
     if case["kind"] == "refine":
         v, c, nt, oc = check_refine(case, cache)
         return v, c, nt, oc, 0
+    if case["kind"] == "nmax":
+        return check_nmax(case)
     return check_line(case)
 
 
